@@ -1,8 +1,8 @@
 (** C10 obligation (used by C01 / C03): the un-escaping String.convert performs inverts the escaping of element data for EVERY text -- both the
     escaping of ET.tostring(method="html") (_escape_cdata) and that of the repaired tostring_unclosed_elements (saxutils.escape) -- with the
     entity table REGENERATED from Types.py (checked well-formed by evaluation: no key is, or ambiguously overlaps, "&amp;"). *)
-From OfxV Require Import Base.Prelude Base.Digits Gen.ScalarsGen Model.PyDecimal Model.Scalars Model.ScalarsLex Proofs.ScalarsText Proofs.PyDecimalProofs Proofs.ScalarsProofs Proofs.ScalarsLexProofs.
+From OfxV Require Import Base.Prelude Base.Digits Gen.ScalarsGen Model.PyDecimal Model.Scalars Model.ScalarsLex Proofs.ScalarsText Proofs.PyDecimalProofs Proofs.ScalarsProofs Proofs.ScalarsLexProofs Proofs.ScalarsThms.
 Local Open Scope N_scope.
 Theorem unescape_escape : forall f s, string_unescape (wire_datum f s) = s.
-Proof. intros f s. unfold string_unescape. apply unescape_escape_l. vm_compute. reflexivity. Qed.
+Proof. exact unescape_escape_l. Qed.
 Print Assumptions unescape_escape.
